@@ -77,6 +77,16 @@ def rule_digits(E, R, crates):
         verdict = None
         why = ""
         body = hb["body"]
+        # a constant text: fine if made of digits, or if only the *error* of the call is ever used
+        lv = lit_value(s)
+        if isinstance(lv, str):
+            label = "from_str_radix(%r, ..)" % lv
+            err_only = any(m["m"] in ("unwrap_err", "err", "expect_err") and strip(m["recv"]) is c
+                           for m in exprs(body, "MethodCall"))
+            if err_only:
+                verdict, why = "ok", "constant text, only the error value of the call is used"
+            elif lv and all(ch in "0123456789abcdefABCDEF" for ch in lv):
+                verdict, why = "ok", "constant text made of digits"
         # (B) guarded Ok arms of a match on the call, or a dominating all-digits test
         parent_match = None
         for m in exprs(body, "Match"):
